@@ -221,6 +221,25 @@ class World:
         except Exception as e:   # e.g. radial periodic: documented ValueError
             return None, type(e).__name__
 
+    def bcs_invalid(self, vent):
+        """The variable's BCs are in the documented-error state (radial periodic)."""
+        if vent is None or vent.kind != "v":
+            return False
+        b = self.ents.get(vent.meta.get("bc"))
+        if b is None:
+            return False
+        return O.radial_periodic(self.mesh_of(vent).meta["cls"], b.meta["state"])
+
+    @staticmethod
+    def _numpy_also_raises(fn):
+        """The numpy reference evaluation on the model's operand values raises
+        too (e.g. unary minus on boolean face values): consistent behaviour."""
+        try:
+            fn()
+        except Exception:
+            return True
+        return False
+
     def bc_ok(self, vent):
         ment = self.mesh_of(vent)
         bent = self.get(vent.meta["bc"], "b")
@@ -1241,10 +1260,26 @@ class World:
             raise Skip("ndarray on the left is numpy's dispatch")
         if le is None and name in ("and", "or"):
             raise Skip("no reflected logical operators")
+        def model_eval_cell():
+            return npf(le.meta["val"] if le is not None else lm,
+                       re_.meta["val"] if re_ is not None else rm)
+
+        def model_comp(i):
+            def get(ent, mval):
+                if ent is None:
+                    return mval
+                return np.frombuffer(ent.snap[i][2], dtype=ent.snap[i][0]).reshape(ent.snap[i][1])
+            return npf(get(le, lm), get(re_, rm))
         try:
             res = f(lo, ro)
         except Exception as ex:
             ctx.status = "raised:" + type(ex).__name__
+            src = le if le is not None else re_
+            if kind == "v" and self.bcs_invalid(src):
+                return          # documented constructor error: BCs currently invalid
+            if self._numpy_also_raises(model_eval_cell if kind == "v"
+                                       else (lambda: [model_comp(i) for i in range(3)])):
+                return
             self.flag("C14", "I2", "%s/%s/raises" % (name, self._kinds(lspec, rspec)),
                       {"exc": repr(ex), "op": op})
             return
@@ -1256,19 +1291,12 @@ class World:
         self.probes["algebra:%s:%s:%s" % (kind, name, self._kinds(lspec, rspec))] += 1
         if kind == "v":
             self._finish_cell_result(op, ctx, res, ment, parents, "binop",
-                                     lambda: npf(le.meta["val"] if le is not None else lm,
-                                                 re_.meta["val"] if re_ is not None else rm),
+                                     model_eval_cell,
                                      le if le is not None else re_,
                                      "%s/%s" % (name, self._kinds(lspec, rspec)),
                                      exact_cmp=name in EXACT_OPS)
         else:
-            def comp(i):
-                def get(ent, mval):
-                    if ent is None:
-                        return mval
-                    return np.frombuffer(ent.snap[i][2], dtype=ent.snap[i][0]).reshape(ent.snap[i][1])
-                return npf(get(le, lm), get(re_, rm))
-            self._finish_face_result(op, ctx, res, ment, parents, "binop", comp,
+            self._finish_face_result(op, ctx, res, ment, parents, "binop", model_comp,
                                      "%s/%s" % (name, self._kinds(lspec, rspec)))
 
     @staticmethod
@@ -1358,10 +1386,17 @@ class World:
         name = a["op"]
         fn = {"neg": lambda x: -x, "abs": lambda x: abs(x)}[name]
         npf = {"neg": lambda x: -x, "abs": np.abs}[name]
+        def ucomp(i):
+            return npf(np.frombuffer(e.snap[i][2], dtype=e.snap[i][0]).reshape(e.snap[i][1]))
         try:
             res = fn(e.obj)
         except Exception as ex:
             ctx.status = "raised:" + type(ex).__name__
+            if self.bcs_invalid(e):
+                return
+            if self._numpy_also_raises((lambda: npf(e.meta["val"])) if e.kind == "v"
+                                       else (lambda: [ucomp(i) for i in range(3)])):
+                return
             self.flag("C14", "I2", "%s/raises" % name, {"exc": repr(ex)})
             return
         ctx.relation[e.name] = "operand"
@@ -1371,9 +1406,7 @@ class World:
             self._finish_cell_result(op, ctx, res, ment, (e.name,), "unop",
                                      lambda: npf(e.meta["val"]), e, name + "/var")
         else:
-            def comp(i):
-                return npf(np.frombuffer(e.snap[i][2], dtype=e.snap[i][0]).reshape(e.snap[i][1]))
-            self._finish_face_result(op, ctx, res, ment, (e.name,), "unop", comp, name + "/var")
+            self._finish_face_result(op, ctx, res, ment, (e.name,), "unop", ucomp, name + "/var")
 
     def op_eval(self, a, op, ctx):
         pf = self.pf
@@ -1388,10 +1421,18 @@ class World:
         fn = a["fn"]
         if (fn == "faceeval") != (kind == "f"):
             raise Skip("kind mismatch")
+        def ecomp(i):
+            return f(*[np.frombuffer(x.snap[i][2], dtype=x.snap[i][0]).reshape(x.snap[i][1])
+                       for x in ents])
         try:
             res = getattr(pf, fn)(f, *[x.obj for x in ents])
         except Exception as ex:
             ctx.status = "raised:" + type(ex).__name__
+            if self.bcs_invalid(ents[0]):
+                return
+            if self._numpy_also_raises((lambda: f(*[x.meta["val"] for x in ents])) if kind == "v"
+                                       else (lambda: [ecomp(i) for i in range(3)])):
+                return
             self.flag("C14", "I2", "%s/raises" % fn, {"exc": repr(ex)})
             return
         for x in ents:
@@ -1405,10 +1446,7 @@ class World:
                                      lambda: f(*[x.meta["val"] for x in ents]),
                                      ents[0], label)
         else:
-            def comp(i):
-                return f(*[np.frombuffer(x.snap[i][2], dtype=x.snap[i][0]).reshape(x.snap[i][1])
-                           for x in ents])
-            self._finish_face_result(op, ctx, res, ment, parents, "eval", comp, label)
+            self._finish_face_result(op, ctx, res, ment, parents, "eval", ecomp, label)
 
     def op_copy(self, a, op, ctx):
         e = self.get(a["v"], "v")
@@ -1641,8 +1679,10 @@ class World:
         pf = self.pf
         vent = self.get(a["v"], "v")
         ment = self.mesh_of(vent)
-        if not self.bc_ok(vent):
-            raise Skip("degenerate BCs")
+        if not self.bc_ok(vent) or self.bcs_invalid(vent):
+            raise Skip("degenerate or invalid BCs")
+        if not np.all(np.isfinite(vent.meta["val"])):
+            raise Skip("non-finite field")
         items = self._term_items(a["terms"])
         if any(it[0] != "t" or it[1].meta.get("mesh") != ment.name for it in items):
             raise Skip("terms")
@@ -1676,6 +1716,9 @@ class World:
             ae = self.get(al, "v")
             if ae.meta["mesh"] != ment.name:
                 raise Skip("alpha on other mesh")
+            if self.bcs_invalid(ae) or not np.all(np.isfinite(ae.meta["val"])) \
+                    or float(np.min(ae.meta["val"])) <= 0:
+                raise Skip("alpha unusable")
             alpha = ae.obj
             ctx.relation[ae.name] = "operand"
         else:
@@ -1695,25 +1738,47 @@ class World:
         if not err <= 1e-13 * cond * scale + 1e-10 * scale:
             self.flag("C12", "I6", "transient/fixed-point",
                       {"var": vent.name, "err": err, "cond": float(cond), "dt": dt})
-        # limits (sampled): dt -> inf gives the steady state, dt -> 0 the old field
+        # limits (sampled, with a bound that is an identity of the per-step
+        # equation evaluated by dense algebra): dt -> inf gives the steady
+        # state, dt -> 0 the old field
         if a.get("limits"):
-            old = vent.obj.copy()
-            oi = A.interior(old)
+            tw, _ = self.twin_of(vent)
+            if tw is None:
+                return
+            nd = len(ment.meta["faces"])
+            isl = (slice(1, -1),) * nd
+            old_full = np.array(A.full_array(tw), copy=True)
+            xs_full = np.array(A.full_array(w), copy=True)
+            oi = old_full[isl]
+            inner, _ = O.interior_index(ment.obj.dims)
+            Sd = M.toarray()
             for big in (True, False):
                 dtl = 1e9 if big else 1e-9
-                w3 = old.copy()
+                w3 = tw.copy()
                 try:
-                    pf.solvePDE(w3, terms + [pf.transientTerm(old, dtl, alpha)])
+                    pf.solvePDE(w3, terms + [pf.transientTerm(tw, dtl, alpha)])
                 except Exception:
                     continue
-                tgt = steady if big else oi
+                av = A.interior(alpha) if isinstance(al, str) else np.full(oi.shape, float(alpha))
+                T = np.zeros(Sd.shape[0])
+                T[inner] = (av / dtl).ravel()
+                try:
+                    inv = np.linalg.inv(Sd + np.diag(T))
+                except Exception:
+                    continue
+                if big:
+                    tgt = steady
+                    dev = inv @ (T * (old_full - xs_full).ravel())
+                else:
+                    tgt = oi
+                    dev = inv @ (RHS - Sd @ old_full.ravel())
                 sc = max(1.0, float(np.max(np.abs(tgt))), float(np.max(np.abs(oi))))
+                bound = 2.0 * float(np.max(np.abs(dev))) + 1e-7 * sc
                 e3 = float(np.max(np.abs(A.interior(w3) - tgt)))
-                amax = float(np.max(np.abs(A.interior(alpha)))) if isinstance(al, str) else abs(alpha)
-                amin = float(np.min(np.abs(A.interior(alpha)))) if isinstance(al, str) else abs(alpha)
-                bound = (1e-9 * max(1.0, amax) * cond * sc * 10 if big
-                         else 1e-9 / max(amin, 1e-6) * (abs(M).sum(axis=1).max() + 1) * sc * 10)
-                if not e3 <= bound + 1e-8 * sc:
+                if not (np.isfinite(bound) and np.isfinite(e3)):
+                    continue
+                self.probes["limit:dt-" + ("inf" if big else "zero")] += 1
+                if not e3 <= bound:
                     self.flag("C12", "I6", "transient/limit-%s" % ("inf" if big else "zero"),
                               {"err": e3, "bound": float(bound)})
                     break
